@@ -507,11 +507,16 @@ func (fr *Frame) enterLoop(head *ssa.BasicBlock, ord int, in *State) *State {
 	fr.loopCtxs[head] = lc
 	// 1. invariant holds on entry
 	for _, cl := range invs {
-		env := ex.specEnv(fr, in, ex.entry)
-		env.loopEntry = in
-		g, sk := env.evalGoalSkolem(cl.Expr)
+		mk := func() *SpecEnv {
+			env := ex.specEnv(fr, in, ex.entry)
+			env.loopEntry = in
+			env.loopHead = head
+			return env
+		}
+		g, sk := mk().evalGoalSkolem(cl.Expr)
 		ex.instantiateHyps(sk)
 		ex.oblige("inv-init", fmt.Sprintf("loop%d%s", ord, labelSuffix(cl)), in, g, head.Instrs[0].Pos(), cl.Props)
+		ex.assumeUniversal(in, sk, mk, cl.Expr)
 	}
 	// 2. havoc
 	ms := newModSet()
@@ -548,6 +553,7 @@ func (fr *Frame) enterLoop(head *ssa.BasicBlock, ord int, in *State) *State {
 		declared = &loopFrame{allowed: map[string][]Term{}, elemBases: map[string][]Term{}, whole: map[string]bool{}}
 		env := ex.specEnv(fr, in, ex.entry)
 		env.loopEntry = in
+		env.loopHead = head
 		for _, m := range ex.fc.LoopMod[ord] {
 			ex.lvalueTargets(env, m, declared.allowed, declared.elemBases, declared.whole)
 		}
@@ -657,6 +663,7 @@ func (fr *Frame) enterLoop(head *ssa.BasicBlock, ord int, in *State) *State {
 	for _, cl := range invs {
 		env := ex.specEnv(fr, st, ex.entry)
 		env.loopEntry = in
+		env.loopHead = head
 		g := env.evalBool(cl.Expr)
 		ex.cx.assume(implies(st.reach, g))
 		// keep it available for instantiation at goal constants
@@ -664,6 +671,7 @@ func (fr *Frame) enterLoop(head *ssa.BasicBlock, ord int, in *State) *State {
 		ex.qhyps = append(ex.qhyps, qhyp{guard: st.reach, inst: func(sk map[string]SVal) (Term, bool) {
 			henv := ex.specEnv(fr, headSt, ex.entry)
 			henv.loopEntry = inSt
+			henv.loopHead = head
 			nUnsup := len(ex.cx.unsupported)
 			t := henv.evalInstance(cl.Expr, sk)
 			if len(ex.cx.unsupported) != nUnsup {
@@ -677,6 +685,7 @@ func (fr *Frame) enterLoop(head *ssa.BasicBlock, ord int, in *State) *State {
 		for _, cl := range ex.fc.LoopAssume[ord] {
 			env := ex.specEnv(fr, st, ex.entry)
 			env.loopEntry = in
+		env.loopHead = head
 			ex.cx.assume(implies(st.reach, env.evalBool(cl.Expr)))
 			ex.cx.note("assumed without proof at loop %d of %s: %s", ord, ex.cx.fnName, cl.Src)
 		}
@@ -684,6 +693,7 @@ func (fr *Frame) enterLoop(head *ssa.BasicBlock, ord int, in *State) *State {
 	if dec != nil {
 		env := ex.specEnv(fr, st, ex.entry)
 		env.loopEntry = in
+		env.loopHead = head
 		lc.dec0 = ex.cx.name("dec", env.evalInt(dec.Expr))
 		lc.hasDec = true
 	}
@@ -720,11 +730,16 @@ func (fr *Frame) closeLoop(head *ssa.BasicBlock, ord int, st *State, from *ssa.B
 		pos = head.Instrs[0].Pos()
 	}
 	for _, cl := range invs {
-		env := ex.specEnv(fr, st, ex.entry)
-		env.loopEntry = lc.entry
-		g, sk := env.evalGoalSkolem(cl.Expr)
+		mk := func() *SpecEnv {
+			env := ex.specEnv(fr, st, ex.entry)
+			env.loopEntry = lc.entry
+			env.loopHead = head
+			return env
+		}
+		g, sk := mk().evalGoalSkolem(cl.Expr)
 		ex.instantiateHyps(sk)
 		ex.oblige("inv-pres", fmt.Sprintf("loop%d%s", ord, labelSuffix(cl)), st, g, pos, cl.Props)
+		ex.assumeUniversal(st, sk, mk, cl.Expr)
 	}
 	if lc.frame != nil {
 		for _, n := range sortedKeys(st.heaps) {
@@ -749,6 +764,7 @@ func (fr *Frame) closeLoop(head *ssa.BasicBlock, ord int, st *State, from *ssa.B
 	if dec != nil && lc.hasDec {
 		env := ex.specEnv(fr, st, ex.entry)
 		env.loopEntry = lc.entry
+		env.loopHead = head
 		d := env.evalInt(dec.Expr)
 		var g Term
 		if ex.cx.mode == "bv" {
@@ -769,4 +785,34 @@ func fnHasDefers(fn *ssa.Function) bool {
 		}
 	}
 	return false
+}
+
+// exitLoop: an edge leaves the body of loop `head`: the declared exit
+// invariants (facts the code after the loop relies on) are proved in the state
+// of that edge and then assumed in universal form.
+func (fr *Frame) exitLoop(head *ssa.BasicBlock, ord int, st *State, from *ssa.BasicBlock) {
+	ex := fr.ex
+	if !fr.isTop || ex.fc == nil {
+		return
+	}
+	lc := fr.loopCtxs[head]
+	if lc == nil {
+		return
+	}
+	pos := from.Instrs[len(from.Instrs)-1].Pos()
+	if !pos.IsValid() {
+		pos = head.Instrs[0].Pos()
+	}
+	for _, cl := range ex.fc.LoopExit[ord] {
+		mk := func() *SpecEnv {
+			env := ex.specEnv(fr, st, ex.entry)
+			env.loopEntry = lc.entry
+			env.loopHead = head
+			return env
+		}
+		g, sk := mk().evalGoalSkolem(cl.Expr)
+		ex.instantiateHyps(sk)
+		ex.oblige("inv-exit", fmt.Sprintf("loop%d%s", ord, labelSuffix(cl)), st, g, pos, cl.Props)
+		ex.assumeUniversal(st, sk, mk, cl.Expr)
+	}
 }
